@@ -227,10 +227,65 @@ theorem text_outside_root_illformed :
 the regression facts — `9999-12-31T23:59:59-01:00` is refused by `Timestamp::parse`, and every accepted timestamp can
 be written — are `C14_regression_year10000_*` in `Findings/C14.lean` and `C14_ts_parse_format_total` in `Props/C14.lean`. -/
 
+/-! F-xml-5 (`xml-illformed-accepted`), a bundle: the judge names the clause of well-formedness an accepted document
+breaks (`xml-illformed-accepted:<clause>`, entries F-xml-5a … F-xml-5j). -/
+
+/-- `LocationConstraint` -/
+def loc : Bytes := [76, 111, 99, 97, 116, 105, 111, 110, 67, 111, 110, 115, 116, 114, 97, 105, 110, 116]
+
+/-- `<LocationConstraint/>` -/
+def docLocEmpty : Bytes := [60] ++ loc ++ [47, 62]
+
+/-- `<LocationConstraint>EU</LocationConstraint>` -/
+def docLocEu : Bytes := [60] ++ loc ++ [62, 69, 85, 60, 47] ++ loc ++ [62]
+
+/-- the value a decoding run of `GetBucketLocationOutput` produced: `some none` = no constraint -/
+def locOf : Except DeErr Val → Option (Option Bytes)
+  | .ok (.struct [.absent]) => some none
+  | .ok (.struct [.one (.str b)]) => some (some b)
+  | _ => none
+
+/-- F-xml-5a (`xml-illformed-accepted:document-element`, FIXED by d00ca17): the empty document (the witness
+`w-empty-location`) is refused by the hand-written `GetBucketLocationOutput` decoder with `UnexpectedEof` (before:
+accepted as "no constraint"; the decoder looped over the top-level elements, of which there were none) … -/
+theorem location_empty_document_refused :
+    errOf (decodeDoc X0 (.location loc) .str (deEvents (tokenize []))) = some .unexpectedEof := by decide
+
+/-- … so is a document of white space and a comment, `\n<!-- nothing -->` (`w-location-comment-only`) … -/
+theorem location_comment_only_refused :
+    errOf (decodeDoc X0 (.location loc) .str (deEvents (tokenize
+      [10, 60, 33, 45, 45, 32, 110, 111, 116, 104, 105, 110, 103, 32, 45, 45, 62]))) = some .unexpectedEof := by decide
+
+/-- … the specification: neither has a document element … -/
+theorem location_empty_document_illformed :
+    (match XmlSpec.parse [] with | .error (.illFormed _) => true | _ => false) = true := by decide
+
+/-- … an empty constraint followed by a second element, `<LocationConstraint/><LocationConstraint>EU</LocationConstraint>`
+(`w-location-empty-then-eu`), is refused with `UnexpectedStart` (before: accepted as `EU`; the empty constraint left
+the variable `None`, so the duplicate guard let the second element through) … -/
+theorem location_second_element_refused :
+    errOf (decodeDoc X0 (.location loc) .str (deEvents (tokenize (docLocEmpty ++ docLocEu)))) = some .unexpectedStart := by
+  decide +kernel
+
+/-- … which is not well-formed: a document has one root element … -/
+theorem location_second_element_illformed :
+    (match XmlSpec.parse (docLocEmpty ++ docLocEu) with | .error (.illFormed _) => true | _ => false) = true := by
+  decide +kernel
+
+/-- … what AWS sends is accepted as before: the empty element for us-east-1 (no constraint), a constraint, white
+space and the XML declaration around the element -/
+theorem location_empty_element_accepted :
+    locOf (decodeDoc X0 (.location loc) .str (deEvents (tokenize docLocEmpty))) = some none := by decide +kernel
+
+theorem location_constraint_accepted :
+    locOf (decodeDoc X0 (.location loc) .str (deEvents (tokenize (xmlDecl ++ [10] ++ docLocEu ++ [10]))))
+      = some (some [69, 85]) := by decide +kernel
+
 /-- `<Key a=b>k</Key>` -/
 def docAttr : Bytes := [60, 75, 101, 121, 32, 97, 61, 98, 62, 107, 60, 47, 75, 101, 121, 62]
 
-/-- F-xml-5 (`xml-illformed-accepted`): an unquoted attribute value is accepted … -/
+/-- F-xml-5b (`xml-illformed-accepted:attribute-syntax`, open — like the clauses 5c … 5j): an unquoted attribute value
+is accepted … -/
 theorem illformed_accepted :
     strOf (decodeDoc X0 (.named key) .str (deEvents (tokenize docAttr))) = some [107] := by decide
 
